@@ -452,20 +452,32 @@ def check_formats(ctx):
     data = P("data", tm.BYTES)
     fobj = P("file_")
     x = tm.b2i(data, "big")
+    from .. import bitvec
     for fmt, per in (("hex", 2), ("bin", 8)):
         for n in (range(0, 65) if ctx.thorough else (0, 1, 2, 5)):
-            ev.bind = {tm.length(data): n}
-            ev.assumptions = {tm.truth(data): n > 0, tm.cmp("eq", data, b""): n == 0, tm.cmp("ne", data, b""): n > 0}
-            s = ev.run(fw, {"output_format": fmt})
+            # data: arbitrary bytes of exactly n bytes. The text written must be the n bytes' bits as digits, most significant
+            # first, with exactly `per` digits per byte -- decided on the bit-level normal form, so formatting the whole integer
+            # with a computed width, byte-by-byte formatting and bytes.hex() are one text
+            dn = tm.sized("data", n)
+            xn = tm.b2i(dn, "big")
+            ev.bind, ev.assumptions = {}, {}
+            ev.unroll_sized = True
+            s = ev.run(fw, {"output_format": fmt, "data": dn})
+            ev.unroll_sized = False
             wr = _writes(s)
             texts = [_strip_eol(c[1][-1]) for c in wr]
-            if n == 0:
-                accepted = ["", tm.hexs(data)] if fmt == "hex" else [""]  # bytes.hex() of the empty string is empty
-            else:
-                accepted = [T("fmt", (x, "0%d%s" % (per * n, "x" if fmt == "hex" else "b"), -1), tm.STR)]
-                if fmt == "hex":
-                    accepted.append(tm.hexs(data))
-            ok = len(wr) == 2 and all(t is not None and (any(tm.veq(t, a) for a in accepted) or (n > 0 and _padded_width(t, x, 16 if fmt == "hex" else 2) == per * n)) for t in texts)
+            want_bits = bitvec.bytes_bits(dn, lambda a: None)
+
+            def good(t):
+                if t is None:
+                    return False
+                if n == 0 and (t == "" or tm.veq(t, tm.hexs(dn))):
+                    return True
+                got = bitvec.text_bits(t, lambda a: None, 16 if fmt == "hex" else 2)
+                if got is not None:
+                    return got == want_bits
+                return n > 0 and _padded_width(t, xn, 16 if fmt == "hex" else 2) == per * n
+            ok = len(wr) == 2 and all(good(t) for t in texts)
             R.check("C20.7", "REGION", fw, "write_bytes %s, %d bytes -> %d digits" % (fmt, n, per * n), ok,
                     "write_bytes(%s) of %d bytes writes %s (the text must have exactly %d digits, determined by the length alone)" % (
                         fmt, n, [tm.show(c[1][-1])[:120] for c in wr], per * n),
